@@ -100,6 +100,27 @@ def tens(o):
     return None if o is None else o.detach().clone()
 
 
+def cached_root_of(op, spec):
+    """the entry the Cholesky shortcut of LinearOperator.inv_quad_logdet would re-use: a TriangularLinearOperator root in the
+    operator's root_decomposition cache (read BEFORE the call; only for classes on the base-class path).  Returns the dense
+    lower-triangular root, "upper" for an upper one (not modelled), or None."""
+    if spec["k"] not in ops.GENERIC:
+        return None
+    import linear_operator.operators as O
+    from linear_operator.utils.memoize import _is_in_cache_ignore_all_args
+    try:
+        if not _is_in_cache_ignore_all_args(op, "root_decomposition"):
+            return None
+        root = op.root_decomposition().root
+    except Exception:
+        return None
+    if not isinstance(root, O.TriangularLinearOperator):
+        return None
+    if getattr(root, "upper", False):
+        return "upper"
+    return root.to_dense().detach().clone()
+
+
 class CGRecorder:
     """records the probe columns handed to linear_cg (the first n_tridiag columns of its rhs) for operators whose
     result carries no autograd node (no floating-point leaf, e.g. sums of identities): the harness-process
@@ -135,6 +156,7 @@ def run_impl(case, defaults):
     Rg = None if R is None else R.clone().requires_grad_(True)
     torch.manual_seed(case["tseed"])
     st = case["st"]
+    croot = None
     with warnings.catch_warnings():
         warnings.simplefilter("ignore")
         with Ctxs(st, defaults), CGRecorder() as rec:
@@ -144,6 +166,7 @@ def run_impl(case, defaults):
                         op.root_decomposition()      # root_decomposition itself are C06's subject
                     except Exception:
                         pass
+                croot = cached_root_of(op, spec)
                 if case["api"] == "iql":
                     iq, ld = op.inv_quad_logdet(Rg, logdet=case["logdet"], reduce_inv_quad=case["reduce"])
                 elif case["api"] == "logdet":
@@ -153,7 +176,7 @@ def run_impl(case, defaults):
                 else:   # inv_quad
                     iq, ld = op.inv_quad(Rg, reduce_inv_quad=case["reduce"]), "absent"
             except Exception as ex:
-                return {"raise": type(ex).__name__, "msg": str(ex)[:160]}
+                return {"raise": type(ex).__name__, "msg": str(ex)[:160], "croot": croot}
     node = None
     for o in (ld, iq):
         if isinstance(o, torch.Tensor) and o.grad_fn is not None and node is None:
@@ -165,7 +188,7 @@ def run_impl(case, defaults):
     if probes is None:
         probes = rec.probes
     obs = {"iq": iq if isinstance(iq, str) else tens(iq), "ld": ld if isinstance(ld, str) else tens(ld),
-           "probes": probes, "pc": None}
+           "probes": probes, "pc": None, "croot": croot}
     ad = added_diag_of(op)
     if ad is not None:
         d = ad._diag_tensor._diagonal().detach().clone()
@@ -246,8 +269,31 @@ def chol_route(st, n):
     return (not st["log_prob"]) or n <= st["mcs"]
 
 
+def root_validity(case, obs):
+    """numerical discharge of the hypothesis `root_valid` of C05_cached_root_*: (is_valid, |L L^T - A|_max) for the lower
+    triangular root found in the root_decomposition cache, or None when there is none"""
+    L = obs.get("croot")
+    if not isinstance(L, torch.Tensor):
+        return None
+    A = ops.dense(case["spec"])
+    L = L.expand(*A.shape[:-2], *L.shape[-2:])
+    err = (L @ L.mT - A).abs().max().item() if L.shape == A.shape else float("inf")
+    low = bool((L.triu(1) == 0).all())
+    return (low and err <= 1e-8 * max(1.0, A.abs().max().item()), err)
+
+
 def predicate(case, obs):
     """None if the observed outputs satisfy C05 on this case, else (fail_kind, text)."""
+    f = predicate0(case, obs)
+    if f and chol_route(case["st"], ops.spec_size(spec_leaf(case["spec"]))) and case["api"] != "inv_quad":
+        rv = root_validity(case, obs)
+        if rv is not None and not rv[0]:
+            f = (f[0], f[1] + " [the lower-triangular root in the operator's root_decomposition cache, which the Cholesky "
+                 "shortcut re-uses, is NOT a root of the operator: max|L L^T - A| = %.3e]" % rv[1])
+    return f
+
+
+def predicate0(case, obs):
     spec, st = case["spec"], case["st"]
     A = ops.dense(spec)
     n = A.shape[-1]
@@ -401,6 +447,8 @@ def failure_key(case, fail):
     n = ops.spec_size(leaf)
     return {"class": ">".join(w) if w else "Leaf", "has_block": "Block" in w, "has_repeat": "Repeat" in w,
             "kind": leaf["k"], "leaf": ops.describe(leaf).split(":")[0],
+            "derive": leaf.get("how") if leaf["k"] == "Derived" else None,
+            "opclass": "Cat" if (leaf["k"] == "Cat" or leaf.get("how") == "cat_rows") else leaf["k"],
             "route": "chol" if chol_route(case["st"], n) else "cg",
             "rhs": "mat" if case["rhs"] == "bmat" else case["rhs"], "rhs_broadcast": case["rhs"] == "bmat",
             "logdet": bool(case["logdet"]), "api": case["api"],
@@ -524,6 +572,79 @@ def variants_mb(quick):
     return V
 
 
+HET_PREFIX = "HET "
+PC_PREFIX = "PC "
+
+
+def het_member(r, n, kd):
+    """members with DIFFERENT Krylov dimensions: generic (n distinct eigenvalues), c I + v v^T (2), c I + V V^T with two
+    columns (3), c I (1)"""
+    I = torch.eye(n, dtype=F64)
+    if kd == "gen":
+        return ops.spd(r, [], n, shift=0.25)
+    if kd == "lr1":
+        v = ops.rnd(r, n, 1)
+        return ops.pos(r, 1).item() * I + v @ v.mT
+    if kd == "lr2":
+        v = ops.rnd(r, n, 2)
+        return ops.pos(r, 1).item() * I + v @ v.mT
+    if kd == "cI":
+        return ops.pos(r, 1).item() * I
+    raise ValueError(kd)
+
+
+def variants_het(quick):
+    """the stochastic path on batches whose members exhaust their Krylov spaces at different iterations (the Lanczos
+    bookkeeping of linear_cg is shared by all columns of all members)"""
+    V = []
+    for n in (5, 8):
+        for kinds in (["gen", "lr1"], ["lr1", "gen"], ["gen", "lr2", "cI"], ["lr2", "lr1"], ["cI", "gen"]):
+            V.append((HET_PREFIX + "Dense n=%d members=%s" % (n, "+".join(kinds)),
+                      lambda r, n=n, kinds=kinds: {"k": "Dense", "A": torch.stack([het_member(r, n, kd) for kd in kinds])}))
+    V.append((HET_PREFIX + "Dense n=5 b=[2, 2] members=gen+lr1+cI+gen",
+              lambda r: {"k": "Dense", "A": torch.stack([het_member(r, 5, kd) for kd in ("gen", "lr1", "cI", "gen")]).reshape(2, 2, 5, 5)}))
+    V.append((HET_PREFIX + "Repeat Dense n=5 members=lr1+gen rep=[2]",
+              lambda r: {"k": "Repeat", "rep": [2], "base": {"k": "Dense", "A": torch.stack([het_member(r, 5, kd) for kd in ("lr1", "gen")])}}))
+    return V
+
+
+def variants_cache(quick):
+    """operators that ARRIVE with pre-filled caches from a derivation (cat_rows with 1, 2, 3 new rows and sizeable cross
+    blocks, add_low_rank, add_jitter / add_diagonal after a cached root, a plain cached root): the Cholesky shortcut of
+    inv_quad_logdet re-uses a cached triangular root"""
+    V = []
+
+    def pd(mk):
+        def f(r):
+            for _ in range(30):
+                sp = mk(r)
+                w = torch.linalg.eigvalsh(ops.dense(sp))
+                if w.min() > 0.2 and (w.max() / w.min()).max() < 45:
+                    return sp
+            raise RuntimeError("no PD draw")
+        return f
+    n = 4
+    for b in ([], [2]):
+        for warm in (False, True):
+            for k in (1, 2, 3):
+                V.append((PC_PREFIX + "cat_rows k=%d n=%d b=%s warm=%d" % (k, n, b, warm),
+                          pd(lambda r, b=b, k=k, warm=warm: {"k": "Derived", "how": "cat_rows", "warm": warm,
+                                                             "A": ops.spd(r, b, n), "B": ops.rnd(r, *b, k, n) * 0.5,
+                                                             "D": ops.spd(r, b, k, shift=2.0)})))
+            for k in (1, 2):
+                V.append((PC_PREFIX + "add_low_rank k=%d n=%d b=%s warm=%d" % (k, n, b, warm),
+                          pd(lambda r, b=b, k=k, warm=warm: {"k": "Derived", "how": "add_low_rank", "warm": warm,
+                                                             "A": ops.spd(r, b, n, shift=0.5), "V": ops.rnd(r, *b, n, k)})))
+        V.append((PC_PREFIX + "add_jitter n=%d b=%s warm=1" % (n, b),
+                  pd(lambda r, b=b: {"k": "Derived", "how": "add_jitter", "warm": True, "A": ops.spd(r, b, n, shift=0.25), "j": 0.5})))
+        V.append((PC_PREFIX + "add_diagonal n=%d b=%s warm=1" % (n, b),
+                  pd(lambda r, b=b: {"k": "Derived", "how": "add_diagonal", "warm": True, "A": ops.spd(r, b, n, shift=0.25),
+                                     "d": ops.pos(r, *b, n)})))
+        V.append((PC_PREFIX + "cached root n=%d b=%s" % (n, b),
+                  pd(lambda r, b=b: {"k": "Derived", "how": "none", "warm": True, "A": ops.spd(r, b, n, shift=0.25)})))
+    return V
+
+
 def variants(quick):
     """deterministic list of (name, builder(rng) -> spec); the seed only picks values"""
     V = []
@@ -641,7 +762,7 @@ def variants(quick):
                             return {"k": "OB", "e": e}
                     return {"k": "Dense", "A": ops.spd(r, b, m)}
                 add("OB %s b=%s m=%d" % (cls, b, m), mk)
-    return V + variants_mb(quick)
+    return V + variants_mb(quick) + variants_het(quick) + variants_cache(quick)
 
 
 def profiles(n, quick, leaf):
@@ -705,6 +826,19 @@ def gen_cases(ctx):
                 core += [c for c in cells if c[0] <= 1 and c[4] == "bmat" and c[5] == ((vi + c[0]) % 2 == 0)
                          and c[6] == ((vi // 2 + c[0]) % 2 == 0)]
                 rot = rot[:2]
+            if name.startswith(HET_PREFIX):
+                # the stochastic path with 10 / 1 / 2 / 3 probes, budgets >= n and one below n
+                want = ("mcs0", "mcs0-nts1", "mcs0-lq=n", "mcs0-cg=n+2", "mcs0-nts3-lq-short")
+                core = [c for c in cells if c[1] in want and c[5] and c[4] == ("mat" if (vi + c[0]) % 2 else "none")
+                        and (c[4] == "none" or c[6] == ((vi + c[0]) % 4 < 2))]
+                rot = rot[:2]
+            if name.startswith(PC_PREFIX):
+                # every route (Cholesky by size, by the log_prob flag, at the boundary; CG) with and without rhs
+                want = ("default", "mcs0", "mcs0-logprob-off", "mcs=n", "mcs=n-1")
+                core = [c for c in cells if c[1] in want and c[4] == "mat" and c[5] and c[6] == ((vi + c[0]) % 2 == 0)]
+                core += [c for c in cells if c[1] in ("default", "mcs=n") and c[4] == "none" and c[5]]
+                core += [c for c in cells if c[1] == "default" and c[4] == "mat" and not c[5] and c[6] == (vi % 2 == 1)]
+                rot = rot[:2]
             if leafd == "OB:AddedDiag":
                 rot += [c for c in cells if c[1].startswith("mcs0-precond") and c[4] != "vec" and (c[3] + vi) % 3 == 0]
             chosen = []
@@ -742,7 +876,10 @@ def gen_cases(ctx):
                      for pname, ov in (("default", {}), ("mcs0", {"mcs": 0, "nts": 2}))
                      for red in ((True, False) if api == "inv_quad" else (True,))]
         if quick:
-            api_cells = [api_cells[(vi + j * 3) % len(api_cells)] for j in range(2)]
+            pick = [api_cells[(vi + j * 3) % len(api_cells)] for j in range(2)]
+            if name.startswith(PC_PREFIX):      # every entry point on the route that re-uses the cached root
+                pick += [c for c in api_cells if c[1] == "default" and c not in pick and (c[0] != "inv_quad" or c[3] == (vi % 2 == 0))]
+            api_cells = pick
         if quick and name.startswith(MB_PREFIX) and "inv_quad" in apis and leaf["k"] != "Ident":
             # LinearOperator.inv_quad documents broadcasting of the rhs batch: one broadcast call per multi-batch variant
             api_cells.append(("inv_quad-b", "default" if vi % 2 else "mcs0", {} if vi % 2 else {"mcs": 0, "nts": 2}, vi % 4 < 2))
@@ -793,7 +930,7 @@ def case_lit(case, obs):
     tol_iq, tol_ld = case["tol"]
     api = {"iql": 0, "logdet": 1, "torch.logdet": 1, "inv_quad": 2}[case["api"]]
     return "(MkCase %s %s %s %s %s %s %s %s %s %s)" % (
-        ops.nat(api), settings_lit(case["st"]), ops.bop_lit(spec, pc), ops.rhs_lit(full_rhs(case, batch), case["rhs"] == "vec", batch),
+        ops.nat(api), settings_lit(case["st"]), ops.bop_lit(spec, pc, obs.get("croot")), ops.rhs_lit(full_rhs(case, batch), case["rhs"] == "vec", batch),
         "true" if case["logdet"] else "false", "true" if case["reduce"] else "false",
         ops.probes_lit(obs.get("probes") if stochastic else None), ops.fl(tol_iq), ops.fl(tol_ld), o)
 
@@ -827,6 +964,8 @@ def model_comparable(case, obs):
     n = ops.spec_size(spec_leaf(case["spec"]))
     if case["rhs"] == "bmat" and is_guard(obs):
         return None          # a refused broadcast rhs: nothing to compare (the model expands the rhs, by meaning)
+    if isinstance(obs.get("croot"), str):
+        return None          # an UPPER triangular cached root (not modelled; does not occur in the grid)
     if "raise" in obs:
         return (1e-9, 1e-9)
     tol_iq, tol_ld = 1e-9, 1e-9
